@@ -64,6 +64,8 @@ pub fn rule_pool(lang: LangId) -> Vec<RuleTxt> {
             rc("lam-unused", "(lam $x ?b)", "?b", "x", "b"),
             r("p-dup", "(p ?a ?a)", "(w ?a)"),
             r("w-intro", "(p ?a ?b)", "(p (w ?a) ?b)"),
+            r("g3-swap", "(g3 $x $y $z)", "(g3 $y $x $z)"),
+            r("g3-drop", "(g3 $x $y $z)", "(f2 $x $y)"),
         ],
         LangId::Lambda => vec![
             rs("beta", "(app (lam $x ?b) ?e)", "?b[(var $x) := ?e]"),
